@@ -471,6 +471,10 @@ func (t *Tokenizer) Tokenize(input []byte) ([]models.TokenWithSpan, error) {
 				tokenErr = err
 				return
 			}
+			if token.Type == models.TokenTypeEOF {
+				// only trailing comments were left: the single end marker is added below
+				break
+			}
 
 			tw := models.TokenWithSpan{
 				Token: token,
@@ -610,6 +614,10 @@ func (t *Tokenizer) TokenizeContext(ctx context.Context, input []byte) ([]models
 				// nextToken returns structured errors, pass through directly
 				tokenErr = err
 				return
+			}
+			if token.Type == models.TokenTypeEOF {
+				// only trailing comments were left: the single end marker is added below
+				break
 			}
 
 			tw := models.TokenWithSpan{
